@@ -26,15 +26,35 @@ class Unrecognised(Exception):
     pass
 
 
-def calls_in(node):
+def calls_in(node, handler_var=None):
     found = []
     for n in ast.walk(node):
         if isinstance(n, ast.Call) and isinstance(n.func, ast.Attribute) and isinstance(n.func.value, ast.Attribute) \
                 and isinstance(n.func.value.value, ast.Name) and n.func.value.value.id == "self":
             key = (n.func.value.attr, n.func.attr)
             if key in ATOMS:
-                found.append((n.lineno, n.col_offset, ATOMS[key]))
+                atom = ATOMS[key]
+                if atom == "groupExit":
+                    # which exception is handed to the group as the exit reason: the method's own `exc_val`
+                    # variable, or the exception bound by the enclosing handler
+                    val = next((k.value for k in n.keywords if k.arg in ("exc_val", "exc")), None)
+                    if val is None and len(n.args) >= 2:
+                        val = n.args[1]
+                    if isinstance(val, ast.Name) and handler_var is not None and val.id == handler_var:
+                        atom = "groupExitCaught"
+                    elif not (isinstance(val, ast.Name) and val.id == "exc_val"):
+                        raise Unrecognised("group exit called with an unrecognised exit reason")
+                found.append((n.lineno, n.col_offset, atom))
     return [a for _, _, a in sorted(found)]
+
+
+def rebinds_reason(s, handler_var) -> bool:
+    """`exc_type, exc_val, exc_tb = type(exc), exc, exc.__traceback__` (any assignment making `exc_val` the caught one)"""
+    if not isinstance(s, ast.Assign) or handler_var is None:
+        return False
+    names = [n.id for t in s.targets for n in ast.walk(t) if isinstance(n, ast.Name)]
+    uses = [n.id for n in ast.walk(s.value) if isinstance(n, ast.Name)]
+    return "exc_val" in names and handler_var in uses
 
 
 def seq(ps):
@@ -47,35 +67,42 @@ def seq(ps):
     return out
 
 
-def stmts(body):
-    return seq([stmt(s) for s in body])
+def stmts(body, hv=None):
+    return seq([stmt(s, hv) for s in body])
 
 
-def stmt(s):
+def stmt(s, hv=None):
+    if rebinds_reason(s, hv):
+        return "(Proc.atom Atom.rebindReason)"
     if isinstance(s, (ast.Expr, ast.Assign, ast.AnnAssign, ast.Return, ast.AugAssign)):
-        return seq([f"(Proc.atom Atom.{a})" for a in calls_in(s)])
+        return seq([f"(Proc.atom Atom.{a})" for a in calls_in(s, hv)])
     if isinstance(s, ast.If):
-        a, b = stmts(s.body), stmts(s.orelse)
+        a, b = stmts(s.body, hv), stmts(s.orelse, hv)
         if a == "Proc.skip":
             return b
         if b == "Proc.skip" or b == a:
             return a
         return a if len(a) >= len(b) else b  # `if self._disposables is not None`: keep the richer branch
     if isinstance(s, ast.Try):
-        p = stmts(s.body)
+        p = stmts(s.body, hv)
         if s.orelse:
             raise Unrecognised("try/else")
         if s.handlers:
-            for h in s.handlers:
-                if not any(isinstance(x, ast.Raise) and x.exc is None for x in h.body):
-                    # a handler that swallows or replaces: not expressible in the IR
-                    raise Unrecognised("except handler without bare raise")
-            hs = [stmts(h.body) for h in s.handlers]
-            if len(set(hs)) > 1:
-                raise Unrecognised("different handlers")
-            p = f"(Proc.tryExcept {p} {hs[0]})"
+            if len(s.handlers) != 1:
+                raise Unrecognised("several handlers")
+            h = s.handlers[0]
+            if not any(isinstance(x, ast.Raise) and x.exc is None for x in h.body):
+                # a handler that swallows or replaces: not expressible in the IR
+                raise Unrecognised("except handler without bare raise")
+            if h.type is None or (isinstance(h.type, ast.Name) and h.type.id == "BaseException"):
+                catches_all = "true"
+            elif isinstance(h.type, ast.Name) and h.type.id == "Exception":
+                catches_all = "false"
+            else:
+                raise Unrecognised("handler for an unrecognised exception class")
+            p = f"(Proc.tryExcept {catches_all} {p} {stmts(h.body, h.name)})"
         if s.finalbody:
-            p = f"(Proc.tryFinally {p} {stmts(s.finalbody)})"
+            p = f"(Proc.tryFinally {p} {stmts(s.finalbody, hv)})"
         return p
     if isinstance(s, (ast.Raise, ast.Pass, ast.Assert)):
         return "Proc.skip"
@@ -99,7 +126,8 @@ def extract(path: Path) -> dict[str, str]:
     return out
 
 
-OBLIGATIONS = ["g_restored", "g_same_exception", "g_cleanup_all_run", "g_restored_sync", "g_same_exception_sync"]
+OBLIGATIONS = ["g_restored", "g_same_exception", "g_cleanup_all_run", "g_exit_reason", "g_enter_rollback_reason",
+               "g_restored_sync", "g_same_exception_sync"]
 
 
 def lean_source(t: dict[str, str]) -> str:
@@ -117,7 +145,8 @@ theorem g_restored (φ : Faults) (body : Option Exc) (scramble : Ctx → Ctx) (m
     (block gAenter gAexit φ body scramble m).1.ctx = m.ctx := by
   unfold block gAenter gAexit
   simp only [run, runAtom]
-  cases h1 : φ .dispEnter <;> cases h2 : φ .groupExit <;> cases h3 : φ .dispExit <;> simp
+  cases h1 : φ .dispEnter <;> cases h2 : φ .groupExit <;> cases h3 : φ .dispExit <;>
+    (try cases ‹Exc›) <;> (try cases ‹Exc›) <;> (try cases ‹Exc›) <;> simp [Exc.isException]
 
 theorem g_same_exception (φ : Faults) (body : Option Exc) (scramble : Ctx → Ctx) (m : M)
     (h : ∀ a, φ a = none) : (block gAenter gAexit φ body scramble m).2 = body := by
@@ -130,7 +159,24 @@ theorem g_cleanup_all_run (φ : Faults) (body : Option Exc) (scramble : Ctx → 
     l.count .dispExit = 1 ∧ l.count .groupExit = 1 ∧ l.count .metricsExit = 1 ∧ l.count .stateExit = 1 := by
   unfold block gAenter gAexit
   simp only [run, runAtom, hin]
-  cases h2 : φ .groupExit <;> cases h3 : φ .dispExit <;> simp
+  cases h2 : φ .groupExit <;> cases h3 : φ .dispExit <;> (try cases ‹Exc›) <;> (try cases ‹Exc›) <;>
+    simp [Exc.isException]
+
+theorem g_exit_reason (φ : Faults) (body : Option Exc) (scramble : Ctx → Ctx) (m : M)
+    (hin : φ .dispEnter = none) :
+    let r := (block gAenter gAexit φ body scramble m).1
+    r.dispSaw = some body ∧
+    r.groupSaw = some (match φ .dispExit with | some d => some d | none => body) := by
+  unfold block gAenter gAexit
+  simp only [run, runAtom, hin]
+  cases h2 : φ .groupExit <;> cases h3 : φ .dispExit <;> (try cases ‹Exc›) <;> simp [Exc.isException]
+
+theorem g_enter_rollback_reason (φ : Faults) (body : Option Exc) (scramble : Ctx → Ctx) (m : M) (e : Exc)
+    (hin : φ .dispEnter = some e) :
+    (block gAenter gAexit φ body scramble m).1.groupSaw = some (some e) := by
+  unfold block gAenter
+  simp only [run, runAtom, hin]
+  cases e <;> cases h2 : φ .groupExit <;> simp [Exc.isException]
 
 theorem g_restored_sync (φ : Faults) (body : Option Exc) (scramble : Ctx → Ctx) (m : M)
     (hg : ∀ c, (scramble c).group = c.group) :
@@ -147,6 +193,8 @@ end Haiway.Generated
 #print axioms Haiway.Generated.g_restored
 #print axioms Haiway.Generated.g_same_exception
 #print axioms Haiway.Generated.g_cleanup_all_run
+#print axioms Haiway.Generated.g_exit_reason
+#print axioms Haiway.Generated.g_enter_rollback_reason
 #print axioms Haiway.Generated.g_restored_sync
 #print axioms Haiway.Generated.g_same_exception_sync
 """
